@@ -23,3 +23,31 @@ Proof.
   - unfold exec_more. rewrite map_length, more_layer_length by assumption. exact Hsum.
 Qed.
 Print Assumptions C13_more_preserves_rows.
+
+(* divisions-based: the verified plan checker.  Whatever plan is produced (by the model or by the real
+   planner -- every real plan met by the harness is fed to plan_ok), if plan_ok accepts it then on EVERY
+   data set that respects the old divisions each output partition holds exactly the rows of its target
+   range, in the original order (lists, not just multisets).  Unbounded in everything. *)
+From DX Require Import RepartProofs.
+Theorem C13_plan_check_sound : forall (row : Type) (idx : row -> Z) (a b : list Z) (pl : plan) (P : list (list row)),
+  valid_divs a = true -> valid_divs b = true ->
+  plan_ok a b pl = true ->
+  respects idx a P -> parts_sorted idx P ->
+  exec_plan idx P pl = spec_plan idx b P.
+Proof. exact plan_ok_sound. Qed.
+Print Assumptions C13_plan_check_sound.
+
+(* the planner itself (model = line-by-line mirror of RepartitionDivisions._layer, compared with the real
+   dict on every run): kernel-checked for ALL old/new division vectors over an 8-value ordered domain with
+   at most 7 entries (492 vectors, 484 128 triples with force), repeated last values and single-value
+   ranges included.  The bound is part of the statement; the unbounded generator theorem is the open part
+   (C13 is therefore `partial` on the generator, full on the checker). *)
+Theorem C13_planner_correct_bounded : forall (row : Type) (idx : row -> Z) a b force pl (P : list (list row)),
+  valid_divs a = true -> valid_divs b = true ->
+  (length a <= 7)%nat -> (length b <= 7)%nat ->
+  (forall x, In x a -> (0 <= x < 8)%Z) -> (forall x, In x b -> (0 <= x < 8)%Z) ->
+  repart_plan a b force = Some pl ->
+  respects idx a P -> parts_sorted idx P ->
+  exec_plan idx P pl = spec_plan idx b P.
+Proof. exact repart_plan_correct_bounded. Qed.
+Print Assumptions C13_planner_correct_bounded.
